@@ -101,7 +101,7 @@ def main(tier):
     c = dict(usable[7])
     bad = np.array(kernel.call_impl(core, c, grid[0])[0]) * 1.001 + 1e-6
     compare(probe, c, grid[0], (bad, kernel.call_impl(core, c, grid[0])[1]), "jit")
-    chk.control("perturbed-rate-detected", len(probe.violations) >= 1)
+    chk.control("perturbed-rate-detected", len(probe.violations) >= 1, impl_dependent=True)
     return chk.finish(
         rule="cases enumerated by TLC (DRexGen); distinct by (fabric, regime, velocity gradient, orientations, volumes) x parameter point; ties / unresolved grains are skipped and counted",
         exhaustive=False,
